@@ -55,9 +55,10 @@ let next_proj st =
   let arg = next_str st in let dir = next_str st in let sd = next_str st in
   let helpers = next_list st (fun st -> let n = next_str st in let d = next_str st in (n, d)) in
   let files = next_list st next_str in
+  let damaged = next_bool st in
   let ops = next_list st next_sop in
   let en = (match next st with "R" -> EReturn | "X" -> ERaise | "E" -> ESysExit | t -> failwith ("ending " ^ t)) in
-  { pj_id = id; pj_kind = kind; pj_arg = arg; pj_dir = dir; pj_setupdir = sd; pj_helpers = helpers; pj_files = files; pj_ops = ops; pj_end = en }
+  { pj_id = id; pj_kind = kind; pj_arg = arg; pj_dir = dir; pj_setupdir = sd; pj_helpers = helpers; pj_files = files; pj_damaged = damaged; pj_ops = ops; pj_end = en }
 let print_pstate s =
   Printf.sprintf "%s %s %d %s %d %s %d %s %d %s %d %s" (cl_hex s.g_cwd) (b2s s.g_capture)
     (List.length s.g_renames) (String.concat " " (List.map (fun (k, v) -> cl_hex k ^ ":" ^ cl_hex v) s.g_renames))
